@@ -14,7 +14,7 @@ import Mdns.Model.Decode
                        `resolve_service_from_cache` / `add_pending_resolve`)
     `pop_timers_till`
     resolver time-outs
-    commands           `exec_command_browse` (+ `query_cache_for_service`),
+    commands           `exec_command_browse` (+ `query_cache_for_service`, `cache_only_queriers`),
                        `exec_command_resolve_hostname` (+ `query_cache_for_hostname`),
                        stop (+ `cache.remove_service_type`), `exec_command_verify`,
                        `exec_command_get_metrics`, options
@@ -69,6 +69,7 @@ structure Intf where
 structure State where
   intfs : List Intf
   queriers : List (BList × Nat)                   -- `service_queriers`: ty ↦ channel
+  cacheOnly : List BList                           -- `cache_only_queriers`: the types browsed cache-only (a set)
   resolvers : List (BList × Nat × Option Nat)      -- `hostname_resolvers`: lower-case host ↦ (channel, deadline)
   reruns : List Rerun                              -- `retransmissions`
   timers : List Nat                                -- `timers` (a multiset)
@@ -156,7 +157,7 @@ structure Packet where
 
 /-- `Zeroconf::new` + the set-up of `run` at time `now` -/
 def init (now : Nat) (intfs : List Intf) : State :=
-  { intfs, queriers := [], resolvers := [], reruns := [], timers := [now + 5000],
+  { intfs, queriers := [], cacheOnly := [], resolvers := [], reruns := [], timers := [now + 5000],
     ipInterval := 5000, nextIpCheck := now + 5000, cache := {}, pending := [], resolved := [],
     acceptUnsolicited := false }
 
@@ -426,14 +427,17 @@ def queryCacheForService (s : State) (now : Nat) (ty : BList) (ch : Nat) : State
     [Out.event ch (.found ty i)] ++
       (if (resolveFromCache s.cache now ty i).valid then [Out.event ch (.resolved (resolveFromCache s.cache now ty i))] else []))
 
-/-- `exec_command_browse` -/
+/-- `exec_command_browse`.  A new browse replaces the earlier one of the type, also in being
+    cache-only or not: `browse_cache` puts the type into `cache_only_queriers`, `browse` takes it
+    out (repair of D23). -/
 def execBrowse (s : State) (now : Nat) (repeating : Bool) (ty : BList) (delay : Nat) (cacheOnly : Bool)
     (ch : Nat) : State × List Out :=
   let r1 : State × List Out :=
     if repeating then (s, [])
     else queryCacheForService
       { s with reruns := s.reruns.filter (fun r => !isBrowseOf ty r),
-               queriers := (ty, ch) :: s.queriers.filter (fun q => q.1 != ty) } now ty ch
+               queriers := (ty, ch) :: s.queriers.filter (fun q => q.1 != ty),
+               cacheOnly := if cacheOnly then insertSet s.cacheOnly ty else s.cacheOnly.filter (· != ty) } now ty ch
   if cacheOnly then (r1.1, [.event ch .started] ++ r1.2 ++ [.event ch (.stopped ty)])
   else
     (addRerun r1.1 (now + delay * 1000) (.browse ty (Sched.nextDelay delay) ch),
@@ -468,6 +472,7 @@ def execStopBrowse (s : State) (ty : BList) : State × List Out :=
   | none => (s, [])
   | some (_, ch) =>
     ({ s with queriers := s.queriers.filter (fun q => q.1 != ty),
+              cacheOnly := s.cacheOnly.filter (· != ty),
               reruns := s.reruns.filter (fun r => !isBrowseOf ty r),
               cache := removeServiceType s.cache ty },
      [.event ch (.stopped ty)])
@@ -583,9 +588,13 @@ def refreshTypes (c : Cache) (now : Nat) : List BList → Cache × List Out × L
     let r2 := refreshTypes r1.1 now rest
     (r2.1, r1.2.1 ++ r2.2.1, r1.2.2 ++ r2.2.2)
 
+/-- the types `refresh_active_services` works for: the browsed types that are not browsed
+    cache-only (repair of D23: a cache-only browse sends no query) -/
+def activeTypes (s : State) : List BList := (s.queriers.map (·.1)).filter fun ty => !s.cacheOnly.contains ty
+
 /-- `refresh_active_services`: the new refresh times are collected in a set -/
 def refreshActive (s : State) (now : Nat) : State × List Out :=
-  let r := refreshTypes s.cache now (s.queriers.map (·.1))
+  let r := refreshTypes s.cache now (activeTypes s)
   (addTimers { s with cache := r.1 } r.2.2.eraseDups, r.2.1)
 
 /-- the address refresh of the hostname resolvers: one question per due (host, address) -/
